@@ -81,6 +81,127 @@ REAL_CMDS = [
 ]
 
 
+# the TIMEOUT leg: nobody asks for a stop, the DAG's own timeoutSec elapses while these steps run. (kind, sh command, signalOnStop)
+# "single-process-…": the step is ONE process (the shell execs the program); "forked-child-…": the shell keeps running and has a
+# child process in the step's process group.
+TIMEOUT_CMDS = [
+    ("single-process-cooperative", "exec sleep 30", ""),
+    ("single-process-ignores-term", "trap '' TERM; exec sleep 30", ""),
+    ("single-process-ignores-term-has-signalOnStop", "trap '' TERM; exec sleep 30", "SIGUSR1"),
+    ("single-process-ignores-its-signalOnStop", "trap '' INT; exec sleep 30", "SIGINT"),
+    ("single-process-ignores-term-and-its-signalOnStop", "trap '' TERM INT; exec sleep 30", "SIGINT"),
+    ("forked-child-cooperative", "sleep 30", ""),
+    ("forked-child-shell-and-child-ignore-term", "trap '' TERM; sleep 30 & wait", ""),
+    ("forked-child-ignores-term-leader-cooperative", "(trap '' TERM; exec sleep 25) & wait", ""),
+    ("forked-child-detached-from-the-step-pipes", "sleep 30 >/dev/null 2>&1 & wait", ""),
+    ("forked-child-obeys-its-signalOnStop", "trap 'exit 0' USR1; sleep 30 & wait", "SIGUSR1"),
+]
+TIMEOUT_NOT_JUDGED = ("timeout leg: the final status of a run ended by its timeoutSec and the handlers it runs are NOT judged (the property text "
+                      "says `canceled` with onCancel+onExit; what the code does is recorded in stats.timeout_leg.outcomes); nor is the way the "
+                      "step is ended (stop signal first / SIGKILL at once). Judged: the run ends within maxCleanUpTime (+3 s) after the "
+                      "timeout, no process of a step's process group is alive 300 ms after the run ended, no step process starts after the timeout")
+
+
+def gen_timeout_cases(chk):
+    cases, k = [], 0
+    for name, cmd, sig in TIMEOUT_CMDS:
+        combos = [(e, l) for e in (0, 1) for l in (0, 1)] if chk.tier == "thorough" else [(int(chk.rng.random() < 0.5), int(chk.rng.random() < 0.5))]
+        for extra, late in combos:
+            tsec = chk.rng.choice([1, 2]) if chk.tier == "thorough" else 1
+            cases.append({"id": "to%d" % k, "cmds": [cmd] + (["exec sleep 20"] if extra else []), "sigs": [sig, ""], "stopVia": "timeout",
+                          "timeoutMs": 1000 * tsec, "cleanupMs": chk.rng.choice([1000, 1500, 2000]), "waitMs": 4000, "kind": name,
+                          # one more step that could only start after the timeout: `late` depends on step 0, `queued` waits for a free slot
+                          "late": late, "queued": 1 - late, "maxActive": 0 if late else 1 + extra}); k += 1
+    return cases
+
+
+def judge_timeout(chk, c, r, st=None):
+    """clauses of C05 that are unambiguous for a run ended by its own timeoutSec; returns (signature, what) or None"""
+    if r.get("panic"):
+        return ("timeout:agent-crashed:" + c["kind"], r["panic"][:200])
+    bound = c["cleanupMs"] + 3000
+    left = r.get("leftGroup") or []
+    if r.get("endedMs", -1) < 0:
+        return ("timeout:run-does-not-end-after-timeout:" + c["kind"],
+                "timeoutSec %g, maxCleanUpTime %d ms: the run was still going on %d ms after the timeout had elapsed (recorded status %r, steps %r); "
+                "live processes of the steps' process groups: %r" % (c["timeoutMs"] / 1000, c["cleanupMs"], c["cleanupMs"] + c["waitMs"], r.get("overall"), r.get("st"), left))
+    if st is not None:
+        st["max_end_ms"] = max(st["max_end_ms"], r["endedMs"])
+        o = "%s; steps %s; handlers run: %s" % (r.get("overall"), ",".join(sorted(set(r.get("st") or []))), ",".join(r.get("handlers") or []) or "none")
+        st["outcomes"][o] = st["outcomes"].get(o, 0) + 1
+    if r["endedMs"] > bound:
+        return ("timeout:run-ends-late:" + c["kind"], "ended %d ms after the timeout had elapsed, maxCleanUpTime %d ms" % (r["endedMs"], c["cleanupMs"]))
+    if left:
+        return ("timeout:step-process-left-running:" + c["kind"],
+                "the run ended %d ms after its timeout, yet 300 ms later these processes of the steps' process groups are still alive: %r" % (r["endedMs"], left))
+    for s in r.get("started") or []:
+        name, _, ms = s.partition("@")
+        if int(ms or 0) > c["timeoutMs"] + 300:
+            return ("timeout:step-started-after-timeout:" + c["kind"], "step %s started its process %s ms after the start of the run, timeoutSec %g" % (name, ms, c["timeoutMs"] / 1000))
+    # "…so the run ends — as canceled, with the cancel and exit handlers executed": the property names the timeout next to the stop request
+    hs = [h.lower() for h in (r.get("handlers") or [])]
+    if r.get("overall") != "canceled" or not any("cancel" in h for h in hs) or not any("exit" in h for h in hs):
+        return ("timeout:run-not-ended-as-canceled-with-cancel-and-exit-handlers:observed-%s/%s" % (r.get("overall"), "+".join(sorted(hs)) or "none"),
+                "timeoutSec %g elapsed while step kind %s was running: the run is recorded %r, steps %r, handlers executed: %r (runErr %r)" % (
+                    c["timeoutMs"] / 1000, c["kind"], r.get("overall"), r.get("st"), r.get("handlers"), r.get("runErr")))
+    return None
+
+
+def _kill_session(sid):
+    """SIGKILL whatever is left of the session `sid` (a harness process and every step process it started: steps get their own
+    process GROUP, never their own session)"""
+    import os, signal
+    for d in os.listdir("/proc"):
+        if d.isdigit():
+            try:
+                t = open("/proc/%s/stat" % d).read()
+                f = t[t.rindex(")") + 2:].split()
+                if int(f[3]) == sid and f[0] != "Z":
+                    os.kill(int(d), signal.SIGKILL)
+            except Exception:
+                pass
+
+
+def _run_real(binp, c):
+    import subprocess
+    p = subprocess.Popen([binp, "realstop"], stdin=subprocess.PIPE, stdout=subprocess.PIPE, stderr=subprocess.PIPE, text=True, start_new_session=True)
+    try:
+        o, e = p.communicate(json.dumps(c) + "\n", timeout=120)
+        return json.loads(o.strip().split("\n")[-1])
+    except Exception as ex:
+        return {"id": c["id"], "panic": "no result: " + repr(ex)[:300]}
+    finally:
+        p.kill()
+        _kill_session(p.pid)        # no step process (sh, sleep) survives the case, whatever happened to the harness
+        try:
+            p.communicate(timeout=5)
+        except Exception:
+            pass
+
+
+def timeout_report(chk, tcases, tres, binp):
+    st = {"cases": 0, "max_end_ms": 0, "kinds": {}, "outcomes": {}, "not_judged": TIMEOUT_NOT_JUDGED}
+    for c, r in zip(tcases, tres):
+        chk.evaluations += 1; st["cases"] += 1; st["kinds"][c["kind"]] = st["kinds"].get(c["kind"], 0) + 1
+        chk.nontrivial.add("timeout:" + c["kind"] + str(len(c["cmds"])) + str(c["late"]))
+        bad = judge_timeout(chk, c, r, st)
+        if bad and bad[0].startswith("timeout:run-ends-late"):
+            r = _run_real(binp, c)          # timing-sensitive: counts only when it happens again
+            bad = judge_timeout(chk, c, r)
+        if bad:
+            chk.violation("C05:" + bad[0], bad[1], {"timeout_case": c, "result": r})
+    chk.stats["timeout_leg"] = st
+    if TIMEOUT_NOT_JUDGED not in chk.assumptions:
+        chk.assumptions.append(TIMEOUT_NOT_JUDGED)
+
+
+def timeout_replay(chk, c):
+    binp, out = common.build_harness("agentrun")
+    if not binp:
+        chk.oblige("harness-build:agentrun", False, out[-3000:]); return
+    timeout_report(chk, [c], [_run_real(binp, c)], binp)
+
+
 def real_stop_stream(chk, prop="C05"):
     """real `sh` steps under the real agent and the real command executor (process groups, pipes): stop via API or OS signal;
     the run must end within MaxCleanUpTime (+ the 3 s polling granularity of Agent.signal), be recorded canceled, run
@@ -99,15 +220,14 @@ def real_stop_stream(chk, prop="C05"):
     for sp in ["SIGUSR1", "usr1", "USR1", "sigusr1", "Sigusr1", "10", "SIGUSR1 "]:
         cases.append({"id": "rs%d" % k, "cmds": ["trap 'exit 0' USR1; sleep 30 & wait"], "sigs": [""], "stopVia": "api", "cleanupMs": 4000,
                       "delayMs": 400, "kind": "yaml-signalOnStop", "yamlSig": sp}); k += 1
-    def one(c):
-        p = subprocess.run([binp, "realstop"], input=json.dumps(c) + "\n", stdout=subprocess.PIPE, stderr=subprocess.PIPE, text=True, timeout=120)
-        try:
-            return json.loads(p.stdout.strip().split("\n")[-1])
-        except Exception:
-            return {"id": c["id"], "panic": "no result: " + p.stderr[-300:]}
+    # the timeout leg (C05 only) shares the pool: its cases go first, the ones that never end take the longest
+    tcases = gen_timeout_cases(chk) if prop == "C05" else []
     import concurrent.futures as cf
-    with cf.ThreadPoolExecutor(8) as ex:
-        res = list(ex.map(one, cases))
+    with cf.ThreadPoolExecutor(8 + len(tcases) if chk.tier == "quick" else 16) as ex:
+        allres = list(ex.map(lambda c: _run_real(binp, c), tcases + cases))
+    res = allres[len(tcases):]
+    if tcases:
+        timeout_report(chk, tcases, allres[:len(tcases)], binp)
     st = {"cases": 0, "max_end_ms": 0, "kinds": {}}
     for c, r in zip(cases, res):
         chk.evaluations += 1; st["cases"] += 1; st["kinds"][c["kind"]] = st["kinds"].get(c["kind"], 0) + 1
@@ -146,6 +266,8 @@ def real_stop_stream(chk, prop="C05"):
 def run(chk, replay):
     if replay:
         rp = json.load(open(replay))
+        if "timeout_case" in rp.get("case", {}):
+            timeout_replay(chk, rp["case"]["timeout_case"]); return
         if "real_stop_case" in rp.get("case", {}):
             real_stop_stream(chk); return
         if "agent_stop_case" in rp.get("case", {}):
